@@ -51,6 +51,45 @@ CLAIMED = {
           "matched texts from a pool filtered by each rule's regex; formatted line numbers bounded 1..5.",
           XH + ": one inductive step of the lexer line invariant", "DESIGN §6 C20"),
 }
+CLAIMED.update({
+ "C02": C("closure of plain data under every entry of the real function table (enumerated at run time, compared with the anchored set) and "
+          "under every node kind, attribute-/format-like templates through SqParser.eval; every explored path runs behind CrossHair's audit wall.",
+          "Argument shapes from a table (lists <= 3); C builtins as CrossHair models them; regex builtins on concrete strings only; structural induction.",
+          XH + ": closure step per builtin and per node kind, audit wall for I/O", "DESIGN §6 C02"),
+ "C05": C("REDUCED SCOPE - with the regex module replaced by a recording stub, every path of match/match_groups/match_all enters the engine "
+          "only with timeout in (0, 0.1] and at most twice.",
+          "The timing claim itself rests on the regex module honouring timeout=; pattern compilation is not covered.",
+          XH + " with a recording stub for the regex module", "DESIGN §6 C05"),
+ "C07": C("differential symbolic execution of the real evaluator against spec/refsem.py (written from the property text): per operator over "
+          "operand-kind pairs, per deterministic builtin over argument shapes, per template against a reference interpreter of the same tree "
+          "(value, error class, names afterwards, ops charged).",
+          "Symbolic arithmetic limited to + - comparisons on ints; Decimal-valued operations on concrete pools; containers <= 3; nesting by induction.",
+          XH + ": differential against a reference semantics", "DESIGN §6 C07"),
+ "C08": C("REDUCED SCOPE - routing obligations with a Decimal recording stub (literal text reaches the constructor; operators apply the Decimal "
+          "operation to the operand objects; numeric builtins never call float) plus a finite differential of the real arithmetic against Fraction.",
+          "libmpdec's rounding outside the literal pool is the decimal module's contract.",
+          XH + " with a Decimal recording stub; finite pool differential", "DESIGN §6 C08"),
+ "C11": C("the real parser's scalar state havoc'ed with unbounded symbolic ints (plus leftover tree/input/stacks), then ONE real "
+          "parse/eval/list_names call compared with a fresh parser; real two-call histories validate the havoc domain.",
+          "16 concrete texts; state on attributes the harness does not know is only covered by the length-2 histories; cross-call lambdas: C01.",
+          XH + ": one call from an arbitrary pre-state", "DESIGN §6 C11"),
+ "C13": C("every non-mutator of the real function table (enumerated at run time) on containers with symbolic leaves and host mappings with "
+          "__missing__, deep snapshot before/after (return or raise); pipelines through SqParser.eval.",
+          "lists <= 3; regex builtins only with container arguments; formatting builtins on concrete elements.",
+          XH, "DESIGN §6 C13"),
+ "C14": C("one container operation through SqParser.eval from an arbitrary small list/dict against spec/container_model.py; key round trips "
+          "across all write/read paths; two-key sequences with functools caches left active.",
+          "lists <= 4, dicts <= 3; indices -6..6 and 11 Decimals; key pool of 15; sequences by the no-hidden-state argument.",
+          XH + ": one step from an arbitrary container vs a model", "DESIGN §6 C14"),
+ "C17": C("every node class's eval leaves the node identical and returns fresh containers; real SqParser with a host cache vs without over a "
+          "symbolic schedule of 3 calls, evictions, pre-warming and host mutation of earlier results.",
+          "12 texts; whole-cache eviction events; quick tier fixes the third call to repeat the first.",
+          XH + ": symbolic call/eviction schedule against an uncached parser", "DESIGN §6 C17"),
+ "C18": C("list_names over a symbolic token stream (lexer stubbed) from an arbitrary pre-state; keyword re-typing; name fields every real grammar "
+          "action can build; names each node kind and template asks the mapping for.",
+          "token streams <= 4; character-level facts need LXC.",
+          XH, "DESIGN §6 C18"),
+})
 NOT_YET = {}
 NA = {}
 
